@@ -62,7 +62,7 @@ Proof. exact c02_wouldblock_lemma. Qed.
 
 (* A writer that waits for credits does not stay blocked after the connection was reset:
    once the socket entry is gone (RST received, local reset) no write pends or reports
-   WouldBlock any more (fix e5646f9; the wake-up of the parked task is tokio's part). *)
+   WouldBlock any more (fix df5434b; the wake-up of the parked task is tokio's part). *)
 Theorem c02_reset_unblocks : forall s x bs pf,
   sk (eps s x) = None ->
   snd (op_try_write pf s x bs) <> RPending /\ snd (op_try_write pf s x bs) <> RErr WouldBlock.
